@@ -21,6 +21,9 @@ U8 == TInt(1, FALSE)   U16 == TInt(2, FALSE)
 \* two versions of an inner table (nested compatibility)
 InnerA == TTable(WId(9), <<TEntry(WId(0), TRUE, U8), TEntry(WId(1), TRUE, TStr(1))>>)
 InnerB == TTable(WId(9), <<TEntry(WId(2), TRUE, U16), TEntry(WId(1), TRUE, TStr(1)), TEntry(WId(0), FALSE, U8)>>)
+\* a third version whose additional entry comes *last* on the wire (what the other versions skip then ends the enclosing
+\* entry exactly)
+InnerC == TTable(WId(9), <<TEntry(WId(1), TRUE, TStr(1)), TEntry(WId(0), TRUE, U8), TEntry(WId(3), TRUE, U16)>>)
 
 \* logical entries: id and the fungible spellings of the type
 EntryPool == <<
@@ -28,7 +31,7 @@ EntryPool == <<
   [id |-> WId(1),   alts |-> <<TStr(1)>>],
   \* (ids are 64-bit: two of them lie above 2^32 and 2^63, with the same low byte as a small id would have)
   [id |-> <<5, 0, 0, 0, 1, 0, 0, 0>>,   alts |-> <<TVec(U16), TArr(U16, 2)>>],     \* 2^32 + 5: vector <-> array of the same element
-  [id |-> <<1, 0, 0, 0, 0, 0, 0, 128>>, alts |-> <<InnerA, InnerB>>]                \* 2^63 + 1: nested table, itself in two versions
+  [id |-> <<1, 0, 0, 0, 0, 0, 0, 128>>, alts |-> <<InnerA, InnerB, InnerC>>]                \* 2^63 + 1: nested table, itself in three versions
 >>
 NE == Len(EntryPool)
 TableHashW == <<52, 18, 0, 0, 0, 0, 0, 0>>     \* 0x1234, never changes
@@ -52,8 +55,8 @@ Steps(d, retired) ==
   \* reorder
   \cup {[d |-> SwapAt(d, i), retired |-> retired] : i \in 1..(Len(d) - 1)}
   \* replace the type by a fungible one
-  \cup {[d |-> [d EXCEPT ![i].alt = 3 - @], retired |-> retired] :
-          i \in {j \in 1..Len(d) : d[j].act /\ Len(EntryPool[d[j].k].alts) = 2}}
+  \cup UNION {{[d |-> [d EXCEPT ![i].alt = a], retired |-> retired] : a \in (1..Len(EntryPool[d[i].k].alts)) \ {d[i].alt}} :
+               i \in {j \in 1..Len(d) : d[j].act}}
 
 \* ---- projection ----------------------------------------------------------------
 RECURSIVE Project(_, _, _)
